@@ -111,8 +111,9 @@ func TestVerif_C16_JWK(t *testing.T) {
 	var items []item
 	add := func(name string, k interface{}) {
 		items = append(items, item{name, k})
-		if p := publicOf(k); p != k {
-			items = append(items, item{name + ".pub", p})
+		switch k.(type) {
+		case *rsa.PrivateKey, *ecdsa.PrivateKey:
+			items = append(items, item{name + ".pub", publicOf(k)})
 		}
 	}
 	add("rfc7638-rsa", rfcRSA)
